@@ -35,28 +35,43 @@ PROBES = [(0.0, 0.0), (6.0, 6.0)]
 PROBE_MATCH = {"pts": [{0}, {2}], "lines": [{2}, {0}], "polys": [{3}, {4}]}
 
 
+PTS_NAME = ["pts"]          # name of the first geometry column in the current exploration ("pts" or "geometry")
+
+
 def base_frame(active):
     import pandas as pd
     from spatialpandas import GeoDataFrame
     from spatialpandas.geometry import LineArray, PointArray, PolygonArray
     df = GeoDataFrame({
         "val": np.arange(5) * 10,
-        "pts": PointArray([list(p) for p in PTS]),
+        PTS_NAME[0]: PointArray([list(p) for p in PTS]),
         "lines": LineArray([[c for p in l for c in p] for l in LINES]),
         "polys": PolygonArray([[r] for r in POLYS]),
     }, index=pd.Index([100, 101, 102, 103, 104], name="idx"), geometry=active)
     return df
 
 
+def rn(c):
+    """model column name -> real column name"""
+    return PTS_NAME[0] if c == "pts" else c
+
+
+def mn(c):
+    """real column name -> model column name"""
+    return "pts" if c == PTS_NAME[0] and c != "pts" else c
+
+
 class M:
     """reference model"""
-    __slots__ = ("kind", "cols", "active", "rows", "nparts", "ordered")
+    __slots__ = ("kind", "cols", "active", "rows", "nparts", "ordered", "tag")
 
-    def __init__(self, kind, cols, active, rows, nparts=0, ordered=True):
+    def __init__(self, kind, cols, active, rows, nparts=0, ordered=True, tag=""):
         self.kind, self.cols, self.active, self.rows, self.nparts, self.ordered = kind, list(cols), active, list(rows), nparts, ordered
+        self.tag = tag
 
     def key(self):
-        return (self.kind, tuple(self.cols), self.active, tuple(self.rows) if self.ordered else tuple(sorted(self.rows)), self.nparts)
+        return (self.kind, tuple(self.cols), self.active, tuple(self.rows) if self.ordered else tuple(sorted(self.rows)), self.nparts,
+                self.tag)
 
     def geoms(self):
         return [c for c in self.cols if c in GEOM_COLS]
@@ -96,6 +111,10 @@ def ops_for(obj, m, depth):
                 ops.append(("d_set_geometry", o))
         for o in g + [None]:
             ops.append(("d_parquet", o))
+        if depth <= 1:
+            ops.append(("d_persist",))
+            for o in g:
+                ops.append(("d_parquet_bounds", o, "A"))
     return ops
 
 
@@ -143,6 +162,12 @@ def apply_model(m, op):
         return M("dd", m.cols, act, m.rows, -2, m.ordered)
     if t == "compute":
         return M("pd", m.cols, m.active, m.rows, 0, m.ordered)
+    if t == "d_persist":
+        return M("dd", m.cols, m.active, m.rows, m.nparts, m.ordered, tag="persisted")
+    if t == "d_parquet_bounds":
+        # whole partitions are kept: the rows are a superset of those whose ACTIVE geometry meets the box
+        mm = M("dd", m.cols, op[1], m.rows, -3, m.ordered)
+        return mm
     raise ValueError(op)
 
 
@@ -172,11 +197,11 @@ def apply_real(obj, m, op, scratch):
         b = BOXES[op[1]]
         return obj.cx[b[0]:b[2], b[1]:b[3]]
     if t == "cols":
-        return obj[list(op[1])]
+        return obj[[rn(c) for c in op[1]]]
     if t == "cols_nogeom":
         return obj[["val"]]
     if t == "set_geometry":
-        return obj.set_geometry(op[1])
+        return obj.set_geometry(rn(op[1]))
     if t == "to_dask":
         return dd.from_pandas(obj, npartitions=op[1])
     if t == "d_filter":
@@ -185,16 +210,23 @@ def apply_real(obj, m, op, scratch):
         b = BOXES[op[1]]
         return obj.cx[b[0]:b[2], b[1]:b[3]]
     if t == "d_cols":
-        return obj[list(op[1])]
+        return obj[[rn(c) for c in op[1]]]
     if t == "d_set_geometry":
-        return obj.set_geometry(op[1])
+        return obj.set_geometry(rn(op[1]))
+    if t == "d_persist":
+        return obj.persist(scheduler="synchronous")
+    if t == "d_parquet_bounds":
+        from spatialpandas.io import read_parquet_dask
+        path = os.path.join(scratch, f"c20-{os.getpid()}-{zlib.crc32(repr((m.key(), op)).encode())}.parq")
+        obj.to_parquet(path, overwrite=True)
+        return read_parquet_dask(path, geometry=rn(op[1]), bounds=BOXES[op[2]])
     if t == "d_pack":
         return obj.pack_partitions(npartitions=op[1], p=6)
     if t == "d_parquet":
         from spatialpandas.io import read_parquet_dask
         path = os.path.join(scratch, f"c20-{os.getpid()}-{zlib.crc32(repr((m.key(), op)).encode())}.parq")
         obj.to_parquet(path, overwrite=True)
-        return read_parquet_dask(path, geometry=op[1])
+        return read_parquet_dask(path, geometry=rn(op[1]) if op[1] else None)
     if t == "compute":
         return obj.compute(scheduler="synchronous")
     raise ValueError(op)
@@ -223,10 +255,10 @@ def check_pandas_state(col, obj, m, hist, case):
     except Exception as ex:
         col.violation("pd.geometry_lost", case, f"after {hist[-3:]}: .geometry raised {type(ex).__name__}: {str(ex)[:120]}", op=op)
         return
-    if name != m.active:
-        col.violation("pd.active_changed", case, f"after {hist[-3:]}: active geometry {name!r}, expected {m.active!r}", op=op)
+    if mn(name) != m.active:
+        col.violation("pd.active_changed", case, f"after {hist[-3:]}: active geometry {name!r}, expected {rn(m.active)!r}", op=op)
         return
-    if list(obj.columns) != m.cols:
+    if [mn(c) for c in obj.columns] != m.cols:
         col.violation("pd.columns", case, f"columns {list(obj.columns)} expected {m.cols}", op=op)
     ids = row_ids(obj)
     if ids is not None:
@@ -243,7 +275,7 @@ def check_pandas_state(col, obj, m, hist, case):
             b = BOXES[box]
             res = obj.cx[b[0]:b[2], b[1]:b[3]]
             got_mask_rows = list(res.index)
-            want_rows = list(obj.index[probe_rows_by_column(obj, m.active, box)])
+            want_rows = list(obj.index[probe_rows_by_column(obj, rn(m.active), box)])
             if got_mask_rows != want_rows:
                 col.violation("pd.cx_wrong_column", case, f"cx[{box}] selected labels {got_mask_rows}, the active column {m.active} selects {want_rows}", op=op)
             if ids is not None and [int(v) // 10 for v in res["val"].tolist()] != [r for r in ids if r in SEL[m.active][box]]:
@@ -253,7 +285,7 @@ def check_pandas_state(col, obj, m, hist, case):
     try:
         c = obj.copy()
         c.build_sindex(page_size=2)
-        built = [g for g in m.geoms() if c[g].array._sindex is not None]
+        built = [g for g in m.geoms() if c[rn(g)].array._sindex is not None]
         col.count("evaluations")
         if built != [m.active]:
             col.violation("pd.build_sindex_column", case, f"build_sindex built an index on {built}, expected [{m.active}]", op=op)
@@ -288,8 +320,8 @@ def check_dask_state(col, obj, m, hist, case):
     except Exception as ex:
         col.violation("dd.geometry_lost", case, f"after {hist[-3:]}: .geometry raised {type(ex).__name__}: {str(ex)[:120]}", op=op)
         return
-    if name != m.active:
-        col.violation("dd.active_changed", case, f"after {hist[-3:]}: active geometry {name!r}, expected {m.active!r}", op=op)
+    if mn(name) != m.active:
+        col.violation("dd.active_changed", case, f"after {hist[-3:]}: active geometry {name!r}, expected {rn(m.active)!r}", op=op)
         return
     col.count("nontrivial")
     # every partition's own active geometry
@@ -298,7 +330,7 @@ def check_dask_state(col, obj, m, hist, case):
                                  meta=pd.DataFrame({"g": pd.Series([], dtype=object), "t": pd.Series([], dtype=object)})
                                  ).compute(scheduler="synchronous")
         col.count("evaluations")
-        bad = [(g, t) for g, t in zip(per["g"], per["t"]) if g != m.active or t != "GeoDataFrame"]
+        bad = [(g, t) for g, t in zip(per["g"], per["t"]) if mn(g) != m.active or t != "GeoDataFrame"]
         if bad:
             col.violation("dd.partition_active", case, f"after {hist[-3:]}: partitions report {list(zip(per['g'], per['t']))}, expected all ({m.active}, GeoDataFrame)", op=op)
     except Exception as ex:
@@ -324,10 +356,19 @@ def check_dask_state(col, obj, m, hist, case):
         col.violation("dd.compute_geometry_lost", case, f"after {hist[-3:]}: compute().geometry raised {type(ex).__name__}: {str(ex)[:100]} "
                       f"(npartitions={obj.npartitions})", op=op)
         cname = None
-    if cname is not None and cname != m.active:
-        col.violation("dd.compute_active_changed", case, f"compute() active {cname!r} expected {m.active!r}", op=op)
+    if cname is not None and mn(cname) != m.active:
+        col.violation("dd.compute_active_changed", case, f"compute() active {cname!r} expected {rn(m.active)!r}", op=op)
     ids = row_ids(comp)
-    if ids is not None:
+    if ids is not None and m.nparts == -3:
+        # bounds-pruned read: whole partitions; every row whose active geometry meets the box must survive
+        box = hist[-1][2] if hist[-1][0] == "d_parquet_bounds" else None
+        if box is not None:
+            need = [r for r in m.rows if r in SEL[m.active][box]]
+            if not set(need) <= set(ids) or not set(ids) <= set(m.rows):
+                col.violation("dd.bounds_pruned_by_wrong_column", case,
+                              f"read_parquet_dask(geometry={rn(m.active)}, bounds={box}) kept rows {ids}; rows {need} intersect the box", op=op)
+        m.rows = list(ids)          # the model adopts the surviving whole partitions
+    elif ids is not None:
         ok = ids == m.rows if m.ordered else sorted(ids) == sorted(m.rows)
         if not ok:
             col.violation("dd.rows", case, f"after {hist[-3:]}: rows {ids} expected {m.rows} (ordered={m.ordered})", op=op)
@@ -351,7 +392,7 @@ def check_dask_state(col, obj, m, hist, case):
         tb = tuple(float(v) for v in obj.geometry.total_bounds)
         col.count("evaluations")
         if len(comp):
-            want = tuple(float(v) for v in comp[m.active].array.total_bounds)
+            want = tuple(float(v) for v in comp[rn(m.active)].array.total_bounds)
             same = all((a == b) or (a != a and b != b) for a, b in zip(tb, want))
             if not same:
                 col.violation("dd.partition_bounds_column", case, f"after {hist[-3:]}: total_bounds {tb} but the active column {m.active} has {want}", op=op)
@@ -360,12 +401,14 @@ def check_dask_state(col, obj, m, hist, case):
     col.outcome(f"dd:{m.active}:np={obj.npartitions}")
 
 
-def explore(col, active, depth, shard, nshards, scratch):
+def explore(col, active, depth, shard, nshards, scratch, pts_name="pts"):
+    PTS_NAME[0] = pts_name
+
     def build_root():
         return base_frame(active), M("pd", ["val", "pts", "lines", "polys"], active, [0, 1, 2, 3, 4])
 
     def case_for(hist):
-        return {"active": active, "history": [list(o) for o in hist]}
+        return {"active": active, "pts_name": pts_name, "history": [list(o) for o in hist]}
 
     def key(obj, m):
         return m.key()
@@ -407,12 +450,22 @@ def explore(col, active, depth, shard, nshards, scratch):
             check_pandas_state(col, obj, m, hist, case)
         else:
             check_dask_state(col, obj, m, hist, case)
+            if any(h[0] == "d_persist" for h in hist):
+                # operations derive new collections; they must not change the one they were applied to
+                try:
+                    for o in ops_for(obj, m, 99):
+                        if o[0] in ("d_set_geometry", "d_cols", "d_cx", "d_filter"):
+                            apply_real(obj, m, o, scratch).compute(scheduler="synchronous")
+                    col.count("noninterference_probes")
+                    check_dask_state(col, obj, m, hist + [("after_deriving_siblings",)], dict(case, after_siblings=True))
+                except Exception as ex:
+                    col.violation("dd.noninterference.raises", case, f"{type(ex).__name__}: {str(ex)[:150]}")
             if hist and hist[-1][0] == "d_pack":
                 # packing order follows the active geometry
                 try:
                     comp = obj.compute(scheduler="synchronous")
-                    tb = comp[m.active].array.total_bounds
-                    want = np.asarray(comp[m.active].array.hilbert_distance(total_bounds=tuple(tb), p=6))
+                    tb = comp[rn(m.active)].array.total_bounds
+                    want = np.asarray(comp[rn(m.active)].array.hilbert_distance(total_bounds=tuple(tb), p=6))
                     col.count("evaluations")
                     if list(comp.index) != list(want) or list(comp.index) != sorted(comp.index):
                         col.violation("dd.pack_column", case, f"packed index {list(comp.index)} but Hilbert distances of {m.active} are {want.tolist()}")
@@ -434,8 +487,9 @@ def run(ctx):
     nshards = 16 if ctx.thorough else 8
     if ctx.thorough:
         depth = 4
-    units = [(a, s) for a in ("lines", "polys") for s in range(nshards)]
+    units = [(a, s, pn) for a in ("lines", "polys") for s in range(nshards) for pn in ("pts", "geometry")]
     # verify the hand-written selection tables against the library once (harness self-check)
+    PTS_NAME[0] = "pts"
     df = base_frame("lines")
     for c in GEOM_COLS:
         for b in BOXES:
@@ -444,8 +498,8 @@ def run(ctx):
                 raise core.HarnessError(f"selection table wrong for {c} {b}: {got}")
 
     def work(col, i):
-        a, s = units[i]
-        explore(col, a, depth, s, nshards, scratch)
+        a, s, pn = units[i]
+        explore(col, a, depth, s, nshards, scratch, pn)
 
     core.pmap(ctx, work, len(units))
     c = ctx.col.counters
@@ -466,6 +520,7 @@ def replay(ctx, case):
     col = core.Collector()
     scratch = ctx.scratch()
     active = case["active"]
+    PTS_NAME[0] = case.get("pts_name", "pts")
     cur, cm = base_frame(active), M("pd", ["val", "pts", "lines", "polys"], active, [0, 1, 2, 3, 4])
     hist = []
     for o in case["history"]:
